@@ -12,8 +12,8 @@ for d in "$wt"/_out/m*/; do
   if tools/verify_seed.sh "$d" > /tmp/intake.$$.log 2>&1; then
     mkdir -p "$dst"; cp "$d/patch.diff" "$d/demo_test.go" "$d/meta.json" "$dst/"
     python3 - "$dst/meta.json" "$(tail -1 /tmp/intake.$$.log)" <<'PY'
-import json,sys
-m=json.load(open(sys.argv[1])); m["verified"]=sys.argv[2]; m["round"]=2
+import json,sys,os
+m=json.load(open(sys.argv[1])); m["verified"]=sys.argv[2]; m["round"]=int(os.environ.get("SEED_ROUND","2"))
 json.dump(m,open(sys.argv[1],"w"),indent=1)
 PY
     echo "KEPT $dst: $(tail -1 /tmp/intake.$$.log)"
